@@ -8721,26 +8721,26 @@ let page_completions_simple u cfg cands =
   let num_cols = Nat.div (cols cfg) max_width in
   let nbc = length cands in
   let num_rows = Nat.div (sub (add nbc num_cols) (S O)) num_cols in
-  let row_text = fun row ->
+  let row_text = fun row0 ->
     concat
       (map (fun col ->
-        let i = add (mul col num_rows) row in
+        let i = add (mul col num_rows) row0 in
         (match nth_error cands i with
          | Some c ->
            app c
-             (if Nat.ltb (add (mul (add col (S O)) num_rows) row) nbc
+             (if Nat.ltb (add (mul (add col (S O)) num_rows) row0) nbc
               then repeat (Npos (XO (XO (XO (XO (XO XH))))))
                      (sub max_width (layout_w u c))
               else [])
          | None -> [])) (seq O num_cols))
   in
   ebind
-    (let rec rows k row =
+    (let rec rows k row0 =
        match k with
        | O -> eret ()
        | S k' ->
          ebind (write ((Npos (XO (XI (XO XH)))) :: [])) (fun _ ->
-           ebind (write (row_text row)) (fun _ -> rows k' (S row)))
+           ebind (write (row_text row0)) (fun _ -> rows k' (S row0)))
      in rows num_rows O) (fun _ ->
     ebind (write ((Npos (XO (XI (XO XH)))) :: [])) (fun _ ->
       ebind eget (fun s ->
@@ -9429,3 +9429,143 @@ let rec run_reads u cfg prompt initial history kr inp = function
        (rev s.e_out) } :: (run_reads u cfg prompt None history s.e_kr
                             { in_cur = []; in_rest = s.e_inp.in_rest } k)
    | None -> { rr_outcome = o; rr_obs = []; rr_out = [] } :: [])
+
+type row = { r_id : nat; r_sess : nat; r_entry : str }
+
+type sqlh = { q_rows : row list; q_nsess : nat; q_cache : nat; q_sess : 
+              nat; q_max : nat; q_igs : bool; q_igd : bool; q_cfg_max : 
+              nat }
+
+(** val sql_new : nat -> bool -> bool -> sqlh **)
+
+let sql_new max0 igs igd =
+  { q_rows = []; q_nsess = O; q_cache = O; q_sess = O; q_max = max0; q_igs =
+    igs; q_igd = igd; q_cfg_max = max0 }
+
+(** val max_id : row list -> nat **)
+
+let max_id rows =
+  fold_left (fun a r -> Nat.max a r.r_id) rows O
+
+(** val sql_ignore : uData -> sqlh -> str -> bool **)
+
+let sql_ignore u h line =
+  (||) (Nat.eqb h.q_max O)
+    (match line with
+     | [] -> true
+     | c :: _ -> (&&) h.q_igs (u.u_is_whitespace c))
+
+(** val same_key : nat -> str -> row -> bool **)
+
+let same_key sess line r =
+  (&&) (Nat.eqb r.r_sess sess) (str_eqb r.r_entry line)
+
+(** val sql_add : uData -> sqlh -> str -> sqlh * bool **)
+
+let sql_add u h line =
+  if sql_ignore u h line
+  then (h, false)
+  else if Nat.eqb h.q_sess O
+       then let sess = S h.q_nsess in
+            let nsess = S h.q_nsess in
+            let kept =
+              if h.q_igd
+              then filter (fun r -> negb (same_key sess line r)) h.q_rows
+              else h.q_rows
+            in
+            let id = S (max_id h.q_rows) in
+            ({ q_rows =
+            (app kept ({ r_id = id; r_sess = sess; r_entry = line } :: []));
+            q_nsess = nsess; q_cache = id; q_sess = sess; q_max = h.q_max;
+            q_igs = h.q_igs; q_igd = h.q_igd; q_cfg_max = h.q_cfg_max }, true)
+       else let sess = h.q_sess in
+            let nsess = h.q_nsess in
+            let kept =
+              if h.q_igd
+              then filter (fun r -> negb (same_key sess line r)) h.q_rows
+              else h.q_rows
+            in
+            let id = S (max_id h.q_rows) in
+            ({ q_rows =
+            (app kept ({ r_id = id; r_sess = sess; r_entry = line } :: []));
+            q_nsess = nsess; q_cache = id; q_sess = sess; q_max = h.q_max;
+            q_igs = h.q_igs; q_igd = h.q_igd; q_cfg_max = h.q_cfg_max }, true)
+
+(** val find_ge : row list -> nat -> row option **)
+
+let rec find_ge rows rid =
+  match rows with
+  | [] -> None
+  | r :: rest -> if Nat.leb rid r.r_id then Some r else find_ge rest rid
+
+(** val find_le : row list -> nat -> row option **)
+
+let rec find_le rows rid =
+  match rows with
+  | [] -> None
+  | r :: rest ->
+    if Nat.leb r.r_id rid
+    then (match find_le rest rid with
+          | Some r' -> Some r'
+          | None -> Some r)
+    else None
+
+(** val sql_get : sqlh -> nat -> sdir -> sqlh * (nat * str) option **)
+
+let sql_get h index d =
+  if Nat.eqb h.q_cache O
+  then (h, None)
+  else (match match d with
+              | Forward -> find_ge h.q_rows (S index)
+              | Reverse -> find_le h.q_rows (S index) with
+        | Some r ->
+          ({ q_rows = h.q_rows; q_nsess = h.q_nsess; q_cache =
+            (Nat.max h.q_cache r.r_id); q_sess = h.q_sess; q_max = h.q_max;
+            q_igs = h.q_igs; q_igd = h.q_igd; q_cfg_max = h.q_cfg_max },
+            (Some ((sub r.r_id (S O)), r.r_entry)))
+        | None -> (h, None))
+
+(** val sql_set_max : sqlh -> nat -> sqlh **)
+
+let sql_set_max h n0 =
+  let count = length h.q_rows in
+  { q_rows = (skipn (sub count n0) h.q_rows); q_nsess = h.q_nsess; q_cache =
+  h.q_cache; q_sess = h.q_sess; q_max = n0; q_igs = h.q_igs; q_igd = h.q_igd;
+  q_cfg_max = h.q_cfg_max }
+
+(** val sql_reopen : sqlh -> sqlh **)
+
+let sql_reopen h =
+  { q_rows = h.q_rows; q_nsess = h.q_nsess; q_cache = (max_id h.q_rows);
+    q_sess = O; q_max = h.q_cfg_max; q_igs = h.q_igs; q_igd = h.q_igd;
+    q_cfg_max = h.q_cfg_max }
+
+type sop =
+| SAdd of str
+| SGet of nat * sdir
+| SLen
+| SSetMax of nat
+| SReopen
+
+type sout =
+| SoBool of bool
+| SoGet of (nat * str) option
+| SoNat of nat
+| SoUnit
+
+(** val sql_step : uData -> sqlh -> sop -> sqlh * sout **)
+
+let sql_step u h = function
+| SAdd l -> let (h', b) = sql_add u h l in (h', (SoBool b))
+| SGet (i, d) -> let (h', r) = sql_get h i d in (h', (SoGet r))
+| SLen -> (h, (SoNat h.q_cache))
+| SSetMax n0 -> ((sql_set_max h n0), SoUnit)
+| SReopen -> ((sql_reopen h), SoUnit)
+
+(** val sql_run : uData -> sqlh -> sop list -> sqlh * sout list **)
+
+let rec sql_run u h = function
+| [] -> (h, [])
+| o :: rest ->
+  let (h1, x) = sql_step u h o in
+  let (h2, xs) = sql_run u h1 rest in (h2, (x :: xs))
